@@ -389,6 +389,17 @@ def request_coq(r):
     return "(mk_req %s %s %s %s %s)" % (KIND_COQ[r["kind"]], iss, cattr(a, r["pb"]), cattr(a, r["url"]), cattr(a, r["index"]))
 
 
+def pref_coq(ent):
+    """the entity's preferred_binding table as the model's cf_preferred (regenerated from the
+    running configuration: which registered endpoint is preferred is not part of C09)"""
+    pb = ent.config.preferred_binding
+    rows = []
+    for name, c in SVC.items():
+        if name in pb:
+            rows.append("(%s, %s)" % (c, clist(list(pb[name]), cbind)))
+    return "[" + "; ".join(rows) + "]"
+
+
 def cbindings(bs):
     return copt(bs, lambda l: clist(l, cbind))
 
@@ -480,6 +491,7 @@ def run_layout(ctx, layout, lid, requests, do_oracle=True, over=None, pref=(POST
     idp = env.make_idp(layout_xml(layout), **(over or {}))
     if not check_loaded(ctx, idp, layout, lid):
         return None, []
+    pref = list(idp.config.preferred_binding.get("assertion_consumer_service", []))
     results = []
     for r in requests:
         x = call(idp.response_args, make_message(r), r["bindings"], r["dt"]) if r["dt"] else \
@@ -515,11 +527,12 @@ def run(ctx):
     strip_selfcheck(ctx)
     layouts = [(("small", n), l) for n, l in enumerate(small_layouts())]
     layouts += [(("special", n), l) for n, l in enumerate(special_layouts())]
-    nrand = 6 if ctx.quick else 120
+    nrand = 6 if ctx.quick else 60
     layouts += [(("random", n), random_layout(ctx.rng)) for n in range(nrand)]
 
     cases = []
     lay_terms = []
+    prefs = set()
     with env.Clock(env.NOW):
         for k, (lid, layout) in enumerate(layouts):
             # quick tier: the complete (URL x index x ProtocolBinding) product on every layout; the
@@ -537,6 +550,7 @@ def run(ctx):
             lay_terms.append(layout_coq(layout))
             if idp is None:
                 continue
+            prefs.add(pref_coq(idp))
             for r, got in zip(reqs, results):
                 cases.append(dict(
                     id=len(cases),
@@ -555,10 +569,12 @@ def run(ctx):
     fn = "run_ra_x" if EXACT else "run_ra"
     # `let` so that the VM builds the layout table once, not once per case
     model = ("let layouts : list mdstore := %s in fun c : (nat * request * option (list str) * str) => "
-             "match c with (n, r, bs, dt) => %s (idp_config default_preferred, nth n layouts [], r, bs, dt) end"
-             % ("[" + ";\n ".join(lay_terms) + "]", fn))
+             "match c with (n, r, bs, dt) => %s (idp_config %s, nth n layouts [], r, bs, dt) end"
+             % ("[" + ";\n ".join(lay_terms) + "]", fn, sorted(prefs)[0] if prefs else "default_preferred"))
+    if len(prefs) > 1:
+        ctx.broken.append(("preferred_binding", "identically configured IdPs report different preferred_binding tables: %r" % sorted(prefs)))
     ctx.correspond("response_args", "Model.PickBinding", model, "(nat * request * option (list str) * str)", cases,
-                   shard=400)
+                   shard=400 if ctx.quick else 1500, timeout=900)
     run_configs(ctx)
     run_pick_binding(ctx)
     run_parsed(ctx)
@@ -580,10 +596,10 @@ def run_configs(ctx):
         for name, pref, pcoq in prefs:
             reqs = [r for r in authn_requests(layout, False) if r["tag"][0] in ("sp1", "nobody") and r["tag"][4] in ("none", "post")]
             reqs += [r for r in other_requests(layout) if r["kind"] == "logout"]
-            idp, results = run_layout(ctx, layout, ("config", name), reqs, over={"preferred_binding": pref},
-                                      pref=pref["assertion_consumer_service"])
+            idp, results = run_layout(ctx, layout, ("config", name), reqs, over={"preferred_binding": pref})
             if idp is None:
                 continue
+            pcoq = pref_coq(idp)
             for r, got in zip(reqs, results):
                 cases.append(dict(id=len(cases), coq="(%s, %s, %s, %s)" % (pcoq, request_coq(r), cbindings(r["bindings"]), cstr(r["dt"])),
                                   impl=got, show=dict(preferred=name, request={x: r[x] for x in ("kind", "issuer", "url", "index", "pb", "bindings", "dt")})))
@@ -656,8 +672,8 @@ def run_pick_binding(ctx):
         ctx.count("pick_binding:no-request:%s" % ("answered" if isinstance(got, list) else "refused"))
     fn = "run_pb_x" if EXACT else "run_pb"
     model = ("let md : mdstore := %s in fun c : (bool * svc * option (list str) * str * option request * str) => "
-             "match c with (sp, s, bs, dt, r, eid) => %s ({| cf_is_sp := sp; cf_preferred := default_preferred |}, md, s, bs, dt, r, eid) end"
-             % (lt, fn))
+             "match c with (sp, s, bs, dt, r, eid) => %s ({| cf_is_sp := sp; cf_preferred := if sp then %s else %s |}, md, s, bs, dt, r, eid) end"
+             % (lt, fn, pref_coq(spc), pref_coq(idp)))
     ctx.correspond("pick_binding", "Model.PickBinding", model, "(bool * svc * option (list str) * str * option request * str)",
                    cases, shard=400)
 
@@ -683,8 +699,8 @@ def run_parsed(ctx):
                 return
             got = observe(call(idp.response_args, parsed.message))
             oracle(ctx, layout, ("parsed",), r, got)
-            oracle_refused(ctx, layout, r, got)
-            cases.append(dict(id=len(cases), coq="(idp_config default_preferred, %s, %s, None, ([]:str))" % (layout_coq(layout), request_coq(r)),
+            oracle_refused(ctx, layout, r, got, list(idp.config.preferred_binding.get("assertion_consumer_service", [])))
+            cases.append(dict(id=len(cases), coq="(idp_config %s, %s, %s, None, ([]:str))" % (pref_coq(idp), layout_coq(layout), request_coq(r)),
                               impl=got, show=dict(parsed=True, request={x: r[x] for x in ("url", "index", "pb")})))
             ctx.nontriv(("parsed", u, i, pb))
             ctx.count("parsed:" + ("answered" if isinstance(got, list) else "refused"))
